@@ -182,6 +182,8 @@ class Result(object):
 def analyse(prop, tier='quick', index=None):
     """Run the rules of one property on an index; no output, no files."""
     res = Result()
+    for key in cfgmod.STATS:
+        cfgmod.STATS[key] = 0
     try:
         mod = importlib.import_module('sa.rules.%s' % prop.lower())
     except ImportError as err:
@@ -320,13 +322,19 @@ def _write_evidence(mod, ctx, tier, seed, wall, violations, known_hit,
         'rule': ('one case = one rule instance (obligation) generated from '
                  'the current source: a located construct (call site, '
                  'statement, CFG path set, table row) and the normal form '
-                 'it must satisfy; evaluations = CFG paths / call sites / '
-                 'table rows examined; distinct = distinct (rule, function, '
+                 'it must satisfy; evaluations = graph queries run on the '
+                 'CFGs (reachability / cut / product explorations / '
+                 'dataflow solves) plus table rows examined; distinct = distinct (rule, function, '
                  'construct) keys; non-trivial = the locator matched a real '
                  'construct whose normal form is not constant'),
         'obligations': len(obs),
         'discharged': len([o for o in obs if o.ok]),
-        'evaluations': max(1, sum(o.evals for o in obs)),
+        'evaluations': max(1, cfgmod.STATS['queries'] +
+                           sum(o.evals for o in obs)),
+        'cfg_queries': cfgmod.STATS['queries'],
+        'cfg_nodes_visited': cfgmod.STATS['visited'],
+        'cfgs_built': cfgmod.STATS['cfgs'],
+        'cfg_nodes_built': cfgmod.STATS['cfg_nodes'],
         'distinct_nontrivial': len(distinct),
         'samples': samples,
         'per_rule': rule_counts,
